@@ -87,6 +87,8 @@ def command_of(s, by_out):
         parts.append("copy=1")
     if s.depall:
         parts.append("depall=1")
+    if getattr(s, "per_out_reads", None):
+        parts.append("po=" + ";".join("%s:%s" % (o, ",".join(rs)) for o, rs in sorted(s.per_out_reads.items())).encode("latin-1").hex())
     if getattr(s, "dep_all_outs", False):
         parts.append("dall=1")
     if getattr(s, "dep_spell", None):
